@@ -3,7 +3,7 @@ import os
 import shutil
 import tempfile
 from harness import drive_ident, gen_graph, gen_proc, gen_cc, gen_cons, tlc
-from harness.runner import pmap, CACHE
+from harness.runner import first_per_clause, pmap, CACHE
 
 
 def multi_start_graph():
@@ -87,7 +87,7 @@ def run(ctx):
     for t in traces:
         v = mon['verdicts'][t['tid']]
         if v[2]:
-            out['fails'].append({'tid': t['tid'], 'fails': v[2][:8], 'g': t['g'],
+            out['fails'].append({'tid': t['tid'], 'fails': first_per_clause(v[2]), 'g': t['g'],
                                  'events': [e for i, e in enumerate(t['ev']) if any(f[1] == i+1 for f in v[2])][:3]})
     out['samples'] = [{'sequence': seqs[5][0] if len(seqs) > 5 else [], 'expected_equal_at_end': seqs[5][1] if len(seqs) > 5 else None},
                       {'process_events': t2[0]['ev'] if t2 and 'ev' in t2[0] else []}]
